@@ -263,7 +263,7 @@ Partial(t, p) == ~Has(t, p) /\ Has(t, IncOf(p))
 (* ---- request handlers ------------------------------------------------------------ *)
 (* result: t (tree afterwards), m (account table afterwards), rep (ok | err | none | closed), eff (paths the handler
    used in file system calls: what C07 constrains), names (list request: the names shown, as a set of [n, k]) *)
-Res(t, m, rep, eff) == [t |-> t, m |-> m, rep |-> rep, eff |-> eff, listed |-> FALSE, names |-> {}]
+Res(t, m, rep, eff) == [t |-> t, m |-> m, rep |-> rep, eff |-> eff, listed |-> FALSE, names |-> {}, rs |-> "none"]
 
 SideOK(p, rp, D) == p # rp \/ "F24" \in D        \* D = {}: the root folder itself has no side files
 Sides(p, rp, D) == IF SideOK(p, rp, D) THEN {IncOf(p), RsrcOf(p), InfoOf(p)} ELSE {}
@@ -433,33 +433,65 @@ AcctFileU(up, L) == LET c == Clean(<<L>>) IN                         \* Update: 
 AcctWrite(up, N, D) == IF "F12" \in D THEN JoinRaw(up, <<N \o Yaml>>) ELSE AcctFileU(up, N)
 AcctN == FileN(-1)                                                    \* contents of account files are not modelled
 
+(* `own` remembers which login is written INSIDE an account file (file path -> login); a file it does not know holds
+   the login its name says *)
+SetKey(f, k, v) == [x \in DOMAIN f \cup {k} |-> IF x = k THEN v ELSE f[x]]
+DelKey(f, k) == [x \in DOMAIN f \ {k} |-> f[x]]
+MoveKey(f, a, b) == IF a \in DOMAIN f THEN SetKey(DelKey(f, a), b, f[a]) ELSE f
+
 AcctCreate(st, up, L) ==
   IF L \in st.m THEN st
   ELSE LET r == CreateExclFS(st.t, AcctFileC(up, L), AcctN)
-       IN IF r.ok THEN [st EXCEPT !.t = r.t, !.m = @ \cup {L}, !.eff = @ \cup {AcctFileC(up, L)}]
+       IN IF r.ok THEN [st EXCEPT !.t = r.t, !.m = @ \cup {L}, !.eff = @ \cup {AcctFileC(up, L)}, !.own = SetKey(@, AcctFileC(up, L), L)]
           ELSE [st EXCEPT !.eff = @ \cup {AcctFileC(up, L)}]
 AcctUpdate(st, up, L, N, D) ==
   IF L \notin st.m THEN AcctCreate(st, up, N)
   ELSE LET r == IF L = N THEN Good(st.t) ELSE RenameFS(st.t, AcctFileU(up, L), AcctFileU(up, N))
            wpath == AcctWrite(up, N, D)
            w == CreateFS(r.t, wpath, AcctN)
+           own1 == IF L = N THEN st.own ELSE MoveKey(st.own, AcctFileU(up, L), AcctFileU(up, N))
        IN IF ~r.ok THEN [st EXCEPT !.eff = @ \cup {AcctFileU(up, L), AcctFileU(up, N)}]
-          ELSE [st EXCEPT !.t = w.t, !.m = (@ \ {L}) \cup {N}, !.eff = @ \cup {AcctFileU(up, L), AcctFileU(up, N), wpath}]
+          ELSE [st EXCEPT !.t = w.t, !.m = (@ \ {L}) \cup {N}, !.eff = @ \cup {AcctFileU(up, L), AcctFileU(up, N), wpath},
+                          !.own = IF w.ok THEN SetKey(own1, wpath, N) ELSE own1]
 AcctDelete(st, up, L) ==
   LET r == RemoveFS(st.t, AcctFileC(up, L))
-  IN IF r.ok THEN [st EXCEPT !.t = r.t, !.m = @ \ {L}, !.eff = @ \cup {AcctFileC(up, L)}]
+  IN IF r.ok THEN [st EXCEPT !.t = r.t, !.m = @ \ {L}, !.eff = @ \cup {AcctFileC(up, L)}, !.own = DelKey(@, AcctFileC(up, L))]
      ELSE [st EXCEPT !.eff = @ \cup {AcctFileC(up, L)}]
+
+(* restart: NewYAMLAccountManager on the same directory.  Every *.yaml file, in the order of their names, whose name is
+   not <login inside, cleaned under "/">.yaml is given that name back if it is free; a failing rename stops the start. *)
+RECURSIVE LexLess(_, _)
+LexLess(a, b) == IF a = <<>> THEN b # <<>> ELSE IF b = <<>> THEN FALSE
+                 ELSE IF a[1] # b[1] THEN a[1] < b[1] ELSE LexLess(Tail(a), Tail(b))
+RECURSIVE SortByName(_)
+SortByName(S) == IF S = {} THEN <<>>
+                 ELSE LET m == CHOOSE x \in S : \A y \in S \ {x} : LexLess(Base(x), Base(y)) IN <<m>> \o SortByName(S \ {m})
+YamlFiles(t, up) == {p \in DOMAIN t : Len(p) = Len(up) + 1 /\ IsPrefix(up, p) /\ t[p].k = "file" /\ HasSuffix(Base(p), Yaml)}
+RECURSIVE RestartFold(_, _, _, _)
+RestartFold(st, files, up, effs) ==
+  IF files = <<>> THEN [st EXCEPT !.rs = "ok", !.eff = @ \cup effs]
+  ELSE LET p == Head(files)
+           login == IF p \in DOMAIN st.own THEN st.own[p] ELSE TrimSuffix(Base(p), Yaml)
+           want == AcctFileU(up, login)
+       IN IF ~Has(st.t, p) \/ want = p \/ StatErr(st.t, want) # "noent" THEN RestartFold(st, Tail(files), up, effs \cup {p})
+          ELSE LET r == RenameFS(st.t, p, want) IN
+               IF r.ok THEN RestartFold([st EXCEPT !.t = r.t, !.own = MoveKey(@, p, want)], Tail(files), up, effs \cup {p, want})
+               ELSE [st EXCEPT !.rs = "fail", !.eff = @ \cup effs \cup {p, want}]
+AcctRestart(st, up) == RestartFold(st, SortByName(YamlFiles(st.t, up)), up, {})
+
 AcctOp(st, up, o, D) ==
   CASE o.op \in {"create350", "create349"} -> (IF o.op = "create349" /\ o.login \in st.m
                                                  THEN AcctUpdate(st, up, o.login, o.login, D) ELSE AcctCreate(st, up, o.login))
     [] o.op = "update" -> AcctUpdate(st, up, o.login, o.login, D)
     [] o.op = "rename" -> (IF o.login = <<>> THEN AcctUpdate(st, up, o.new, o.new, D) ELSE AcctUpdate(st, up, o.login, o.new, D))
     [] o.op \in {"delete351", "delete349"} -> AcctDelete(st, up, o.login)
+    [] o.op = "restart" -> AcctRestart(st, up)
     [] OTHER -> st
 RECURSIVE AcctOps(_, _, _, _)
 AcctOps(st, up, ops, D) == IF ops = <<>> THEN st ELSE AcctOps(AcctOp(st, up, Head(ops), D), up, Tail(ops), D)
 DoAcct(t, m, s, up, D) ==
-  LET r == AcctOps([t |-> t, m |-> m, eff |-> {}], up, s.ops, D) IN Res(r.t, r.m, "ok", r.eff)
+  LET r == AcctOps([t |-> t, m |-> m, eff |-> {}, own |-> <<>>, rs |-> "none"], up, s.ops, D)
+  IN [Res(r.t, r.m, "ok", r.eff) EXCEPT !.rs = r.rs]
 
 (* ---- dispatch ----------------------------------------------------------------------------- *)
 UploadBytes == 3      \* the drivers upload 3 data bytes per file
@@ -554,6 +586,23 @@ ForksStayObs(s, T0, T1, rp) ==
   IN (s.kind \in {"rename", "move"} /\ pr.st = "ok" /\ PlainName(Val(s.name)) /\ Has(T0, p) /\ T0[p].k = "file"
         /\ Has(T1, p) /\ T1[p] = T0[p])
      => \A x \in {IncOf(p), RsrcOf(p), InfoOf(p)} : Has(T0, x) => (Has(T1, x) /\ T1[x] = T0[x])
+
+(* entries the request does not name (neither its object nor its destination, nor anything inside a folder it moves or
+   deletes) are bystanders: each keeps its forks, comment and partial data unchanged - e.g. an operation on an ALIAS
+   must leave the side files of the file it points to alone *)
+BystanderForksObs(s, T0, T1, rp) ==
+  LET pr == ParsePath(s.path, {})
+      pn == ParsePath(s.newpath, {})
+      p == Resolve(rp, pr.items, Val(s.name))
+      tgt == IF s.kind = "rename" THEN Resolve(rp, pr.items, Val(s.newname))
+             ELSE IF s.kind \in {"move", "alias"} THEN rp \o DecPath(Clean(pn.items)) \o <<Base(p)>> ELSE p
+      named == {p, tgt}
+      namedSides == named \cup UNION {{IncOf(x), RsrcOf(x), InfoOf(x)} : x \in named}
+  IN (pr.st = "ok" /\ pn.st = "ok" /\ Len(p) > Len(rp))
+     => \A q \in DOMAIN T0 :
+          (T0[q].k \in {"file", "dir"} /\ Len(q) > Len(rp) /\ ~SideName(Base(q)) /\ q \notin named /\ ~IsPrefix(p, q) /\ ~IsPrefix(tgt, q)
+             /\ Has(T1, q) /\ T1[q] = T0[q])
+          => \A x \in {IncOf(q), RsrcOf(q), InfoOf(q)} \ namedSides : Has(T0, x) => (Has(T1, x) /\ T1[x] = T0[x])
 
 (* the tree a well-formed request asks for, stated as an image of paths (no file system calls) *)
 Image(T0, p, q, withSides) ==
